@@ -9,7 +9,7 @@
 (*                                                                         *)
 (*   Acquire(t)   `with _recursion_lock:`         (design with UseLock)     *)
 (*   Check(t)     `rec_key not in cache`          (is_recursive)            *)
-(*   Enter(t)     `rec_key in self._cache`        (RecursiveChecker.visit)  *)
+(*   Enter(t)     `self._cache.get(rec_key)`      (RecursiveChecker.visit)  *)
 (*   WriteT(t,k)  `self._cache[key] = True`       one step PER key of the   *)
 (*                                                non-atomic write loop     *)
 (*   AssertR(t)   `assert self._cache[rec_key]`                             *)
@@ -29,7 +29,8 @@ CONSTANTS Nodes,        \* set of keys
           Succ,         \* [Nodes -> Seq(Nodes)]
           Threads,      \* set of thread ids
           Prog,         \* [Threads -> Seq(Nodes)]: the successive is_recursive(root) calls
-          UseLock       \* BOOLEAN
+          UseLock,      \* BOOLEAN
+          Deviations    \* named deviations of the pinned tree kept for negative checks
 
 VARIABLES cache,        \* [Nodes -> {"none","T","F"}]   the shared recursion cache
           lock,         \* holder of the analysis lock, or "free"
@@ -112,13 +113,17 @@ Enter(t) ==
   /\ th[t].pc = "enter"
   /\ LET l == th[t]  k == l.cur IN
      th' = [th EXCEPT ![t] =
-       IF cache[k] # "none" THEN Advance(l)
+       \* Only a key known NOT to be recursive can be skipped: it cannot reach back into the
+       \* guard.  Skipping a key cached as recursive (deviation "skiptrue", the pinned tree) loses
+       \* the cycles that go through it: a node whose only way back to the guard crosses an
+       \* already analysed recursive key is then written False -- even with a single thread.
+       IF cache[k] = "F" \/ (cache[k] = "T" /\ "skiptrue" \in Deviations) THEN Advance(l)
        ELSE IF k \in GuardKeys(l) THEN
               LET cyc == {l.stack[i].key : i \in GuardIndex(l, k)..Len(l.stack)} IN
               Advance([l EXCEPT !.rec[k] = @ \cup cyc, !.allrec = @ \cup cyc])
        ELSE Advance([l EXCEPT !.stack = Append(@, [key |-> k, ci |-> 1])])]
   /\ UNCHANGED <<cache, lock>>
-  /\ Log(t, "contains", th[t].cur, IF cache[th[t].cur] # "none" THEN "in" ELSE "out")
+  /\ Log(t, "lookup", th[t].cur, cache[th[t].cur])
 
 \* `for key in self._recursive[rec_key]: self._cache[key] = True` -- one key per step, any order
 WriteT(t, k) ==
